@@ -6,6 +6,7 @@ import (
 	"bytes"
 	"fmt"
 	"regexp"
+	"runtime/debug"
 	"sort"
 	"strings"
 	"sync"
@@ -204,8 +205,9 @@ func vfC08LenRel(got, want []byte) string {
 }
 
 // vfC08Positions lists the byte positions of a stored chunk of n bytes that are altered:
-// all of them when n <= full, otherwise an explicit sub-grid (first 64, last 72, every 257th,
-// powers of two and their neighbours).
+// all of them when n <= full, otherwise an explicit sub-grid (first 32, last 40 — which
+// covers the checksum and the tail of the protected part —, every 4099th, powers of two
+// and their neighbours).
 func vfC08Positions(n, full int) (pos []int, all bool) {
 	if n <= full {
 		pos = make([]int, n)
@@ -215,16 +217,16 @@ func vfC08Positions(n, full int) (pos []int, all bool) {
 		return pos, true
 	}
 	set := map[int]bool{}
-	for i := 0; i < 64; i++ {
+	for i := 0; i < 32; i++ {
 		set[i] = true
 	}
-	for i := n - 72; i < n; i++ {
+	for i := n - 40; i < n; i++ {
 		set[i] = true
 	}
-	for i := 0; i < n; i += 257 {
+	for i := 0; i < n; i += 4099 {
 		set[i] = true
 	}
-	for p := 64; p < n; p *= 2 {
+	for p := 32; p < n; p *= 2 {
 		for _, d := range []int{-1, 0, 1} {
 			if p+d < n {
 				set[p+d] = true
@@ -236,6 +238,23 @@ func vfC08Positions(n, full int) (pos []int, all bool) {
 	}
 	sort.Ints(pos)
 	return pos, false
+}
+
+// vfC08RefFletcher is an independent Fletcher-32 in the writer's convention (16-bit
+// little-endian words, an odd trailing byte is a word with high byte 0, both sums modulo
+// 65535), computed in closed form: sum1 = S w_k, sum2 = S (m-k) w_k.
+func vfC08RefFletcher(d []byte) uint32 {
+	m := (len(d) + 1) / 2
+	var s1, s2 uint64
+	for k := 0; k < m; k++ {
+		w := uint64(d[2*k])
+		if 2*k+1 < len(d) {
+			w |= uint64(d[2*k+1]) << 8
+		}
+		s1 = (s1 + w) % 65535
+		s2 = (s2 + (uint64(m-k)%65535)*(w%65535)) % 65535
+	}
+	return uint32(s2)<<16 | uint32(s1)
 }
 
 type vfC08Fail struct {
@@ -284,6 +303,10 @@ func vfC08Point(p vfC08Pipe, n, content int, payload []byte, thorough bool, pars
 		return m
 	}
 	fp, cm := p.build()
+	pclass := "payload-nonempty"
+	if n == 0 {
+		pclass = "payload-empty"
+	}
 	in := append([]byte(nil), payload...)
 	stored, err := fp.Apply(in)
 	if err != nil {
@@ -300,7 +323,7 @@ func vfC08Point(p vfC08Pipe, n, content int, payload []byte, thorough bool, pars
 	back, err := fp.Remove(append([]byte(nil), stored...))
 	switch {
 	case err != nil:
-		res.fail("writer-roundtrip/error/"+vfC08Norm(err), mk(map[string]any{"error": err.Error()}))
+		res.fail("writer-roundtrip/error/"+vfC08Norm(err)+"/"+pclass, mk(map[string]any{"error": err.Error()}))
 		res.outcomes = append(res.outcomes, "writer-roundtrip-error")
 	case !bytes.Equal(back, payload):
 		res.fail("writer-roundtrip/wrong-payload/"+p.kinds+"/"+vfC08LenRel(back, payload), mk(map[string]any{"got_len": len(back)}))
@@ -315,7 +338,7 @@ func vfC08Point(p vfC08Pipe, n, content int, payload []byte, thorough bool, pars
 		got, err := cm.ApplyFilters(append([]byte(nil), stored...))
 		switch {
 		case err != nil:
-			res.fail("reader-decode/error/"+vfC08Norm(err), mk(map[string]any{"error": err.Error(), "stored_len": len(stored)}))
+			res.fail("reader-decode/error/"+vfC08Norm(err)+"/"+pclass, mk(map[string]any{"error": err.Error(), "stored_len": len(stored)}))
 			res.outcomes = append(res.outcomes, "reader-decode-error")
 		case !bytes.Equal(got, payload):
 			res.fail("reader-decode/wrong-payload/"+p.kinds+"/"+vfC08LenRel(got, payload), mk(map[string]any{"got_len": len(got)}))
@@ -329,7 +352,7 @@ func vfC08Point(p vfC08Pipe, n, content int, payload []byte, thorough bool, pars
 			got, err := parsed.ApplyFilters(append([]byte(nil), stored...))
 			switch {
 			case err != nil:
-				res.fail("reader-decode-via-parsed-message/error/"+vfC08Norm(err), mk(map[string]any{"error": err.Error()}))
+				res.fail("reader-decode-via-parsed-message/error/"+vfC08Norm(err)+"/"+pclass, mk(map[string]any{"error": err.Error()}))
 			case !bytes.Equal(got, payload):
 				res.fail("reader-decode-via-parsed-message/wrong-payload/"+p.kinds+"/"+vfC08LenRel(got, payload), mk(nil))
 			}
@@ -342,6 +365,12 @@ func vfC08Point(p vfC08Pipe, n, content int, payload []byte, thorough bool, pars
 	// (3) corruption
 	if !p.hasF {
 		return res
+	}
+	fIdx := 0
+	for i, it := range p.items {
+		if it.kind == 'f' {
+			fIdx = i
+		}
 	}
 	where := "inner-f32"
 	full := 600
@@ -362,7 +391,7 @@ func vfC08Point(p vfC08Pipe, n, content int, payload []byte, thorough bool, pars
 		res.count("corruption_points_position_subgrid", 1)
 	}
 	masks := []byte{0x01, 0x80, 0xFF}
-	if n <= 33 {
+	if n <= 33 && (p.outF || thorough) {
 		masks = masks[:0]
 		for m := 1; m < 256; m++ {
 			masks = append(masks, byte(m))
@@ -374,6 +403,27 @@ func vfC08Point(p vfC08Pipe, n, content int, payload []byte, thorough bool, pars
 		f    func([]byte) ([]byte, error)
 	}
 	decs := []dec{{"writer", fp.Remove}, {"reader", cm.ApplyFilters}}
+	// genuineCollision: with Fletcher-32 as an inner stage a single stored byte can change the
+	// protected block in many bytes and in length; Fletcher-32 cannot see e.g. the length of an
+	// all-zero (or all-0xFFFF) block. A decode without error is legitimate exactly when the
+	// block the Fletcher stage sees (outer stages undone one by one) carries a checksum that
+	// an independent Fletcher-32 confirms.
+	genuineCollision := func() bool {
+		blk := append([]byte(nil), buf...)
+		for i := len(p.items) - 1; i > fIdx; i-- {
+			var err error
+			blk, err = p.items[i].filter().Remove(blk)
+			if err != nil {
+				return false
+			}
+		}
+		if len(blk) < 4 {
+			return false
+		}
+		k := len(blk) - 4
+		stored := uint32(blk[k]) | uint32(blk[k+1])<<8 | uint32(blk[k+2])<<16 | uint32(blk[k+3])<<24
+		return vfC08RefFletcher(blk[:k]) == stored
+	}
 	judge := func(d dec, what string, extra map[string]any) {
 		got, err := d.f(buf)
 		if err != nil {
@@ -384,9 +434,15 @@ func vfC08Point(p vfC08Pipe, n, content int, payload []byte, thorough bool, pars
 			return
 		}
 		same := bytes.Equal(got, payload)
-		if !p.outF && same && what == "byte" {
-			res.count(d.name+"_corruption_benign_original_payload", 1)
-			return
+		if !p.outF {
+			if same {
+				res.count(d.name+"_corruption_benign_original_payload", 1)
+				return
+			}
+			if genuineCollision() {
+				res.count(d.name+"_corruption_inner_genuine_fletcher_collision", 1)
+				return
+			}
 		}
 		shape := "altered-payload-returned"
 		if same {
@@ -435,6 +491,9 @@ func vfC08Point(p vfC08Pipe, n, content int, payload []byte, thorough bool, pars
 func TestVerif_C08(t *testing.T) {
 	r := vkit.Start(t, "C08", "exploration")
 	defer r.Finish()
+	// the grid allocates short-lived buffers at a very high rate over a small live heap:
+	// collect less often (restored on exit)
+	defer debug.SetGCPercent(debug.SetGCPercent(2000))
 	maxLen := 3
 	lengths := []int{0, 1, 2, 3, 4, 5, 7, 8, 9, 15, 16, 17, 31, 32, 33, 255, 256, 257, 4095, 4096, 4097, 65537}
 	if r.Thorough() {
@@ -610,5 +669,5 @@ func TestVerif_C08(t *testing.T) {
 	r.Set("corrupted_variants_per_decoder", variants)
 	r.Sample(map[string]any{"pipeline": "shuffle(4)>deflate(6)>fletcher32", "length": 4096, "content": "ramp", "checked": "Remove(Apply(p))==p; core.ApplyFilters(Apply(p))==p; every stored byte ^ {01,80,FF} -> error in both decoders; every adjacent word swap -> error"})
 	r.Sample(map[string]any{"pipeline": "fletcher32>lzf", "length": 33, "content": "one-odd-byte", "checked": "every stored byte ^ every mask 01..FF -> error or the original payload, in both decoders"})
-	r.Rule(fmt.Sprintf("every (pipeline, length, content) of the listed grid: %d pipelines (all ordered selections without repetition of <=%d kinds from deflate{1,6,9}, shuffle{1,2,4,8}, fletcher32, lzf, plus the empty one) x %d lengths x 6 contents (+2 period-8192/8193 contents for lengths > 4097); a point is non-trivial when the pipeline is non-empty, the writer accepts it and (length>0 or content==zeros). Corruption: for pipelines containing fletcher32 every byte of the stored chunk (all positions when the stored chunk is <= 4300 bytes [outermost, quick], 70000 [outermost, thorough], 600/4300 [inner]; otherwise the listed position sub-grid: first 64, last 72, every 257th, powers of two +-1) x masks {01,80,FF} (all 255 masks for payload length <= 33), plus every adjacent non-congruent 16-bit word transposition of the protected part where all positions are enumerated; each variant decoded by the writer's Remove and by core's ApplyFilters", len(pipes), maxLen, len(lengths)))
+	r.Rule(fmt.Sprintf("every (pipeline, length, content) of the listed grid: %d pipelines (all ordered selections without repetition of <=%d kinds from deflate{1,6,9}, shuffle{1,2,4,8}, fletcher32, lzf, plus the empty one) x %d lengths x 6 contents (+2 period-8192/8193 contents for lengths > 4097); a point is non-trivial when the pipeline is non-empty, the writer accepts it and (length>0 or content==zeros). Corruption: for pipelines containing fletcher32 every byte of the stored chunk (all positions when the stored chunk is <= 4300 bytes [outermost, quick], 70000 [outermost, thorough], 600/4300 [inner quick/thorough]; otherwise the listed position sub-grid: first 32, last 40, every 4099th, powers of two +-1) x masks {01,80,FF} (all 255 masks for payload length <= 33 when fletcher32 is outermost; thorough: also inner), plus every adjacent non-congruent 16-bit word transposition of the protected part where all positions are enumerated; each variant decoded by the writer's Remove and by core's ApplyFilters", len(pipes), maxLen, len(lengths)))
 }
